@@ -285,6 +285,7 @@ CHECKS['C14']['level_note'] += ' A second job covers paths of up to 513 componen
 
 # ---- the same harnesses entered through ninja.cc's real_main (flag parsing, NinjaMain, RebuildManifest loop, RunBuild, real StatusPrinter)
 SCENARIOS.append('regen_manifest')     # 29
+SCENARIOS.append('dead_outputs'); SCENARIOS.append('tools_mix'); SCENARIOS.append('generator_runs_restat')    # 30, 31, 32
 def _via_main(jobs, thorough_only=False):
     out = []
     for j in jobs:
@@ -315,6 +316,30 @@ CHECKS['C19']['jobs'] += _via_main(_mode_jobs('MODE_DRYRUN', [0], reach=('compar
 CHECKS['C17']['jobs'] += _via_main(_mode_jobs('MODE_CYCLE', [16], reach=('cycle-diagnosed', 'acyclic-built'), bounds='symbolic target subset, -j in {1,2}, two invocations'))
 CHECKS['C20']['jobs'] += _via_main(_mode_jobs('MODE_STATUS', [5], reach=('success', 'output-shown'), bounds='one invocation from the empty tree, -j in {1,2,3}, each command prints or not, every completion order'))
 CHECKS['C06']['jobs'] += _via_main(_mode_jobs('MODE_SCHED', [9], extra=['WITH_FAILURES'], suffix='_fail', reach=('built',), bounds='one invocation from the empty tree with any subset of commands failing, -k in {1,2}, -j in {1,2,3}, every completion order'))
+CHECKS['C18']['jobs'] += [dict(j, name='dead_outputs_cleandead') for j in _tool_jobs([30], mode='MODE_CLEANDEAD', reach=('cleandead', 'recompacted'), bounds='full build, then statements removed from the manifest (one former output becomes a source); optionally -t recompact and/or a build first; ninja -n -t cleandead, ninja -t cleandead, build')]
+CHECKS['C19']['jobs'] += _tool_jobs([7], reach=('read-only-tool', 'log-tool', 'commands', 'inputs', 'compdb', 'dry-run'), bounds=_TOOLS_BOUNDS)
+CHECKS['C19']['jobs'] += _tool_jobs([31], reach=('read-only-tool', 'commands', 'inputs', 'compdb', 'dry-run'), bounds=_TOOLS_BOUNDS)
+CHECKS['C08']['jobs'] += _hist_jobs('CHECK_C08', 2, 3, [32], extra_defs=['CHECK_C02'], reach=('built', 'incremental-build', 'records-checked', 'converged-checked'))
+CHECKS['C08']['level_text'] += ' A pipeline job runs histories of whole builds in which a generator command runs `ninja -t restat` (the real BuildLog::Restat, temporary file + rename) while the outer ninja holds the log open, and asserts that every record of the session is in the log afterwards and the next build has nothing to do.'
+CHECKS['C02']['jobs'] += _hist_jobs('CHECK_C02', 2, 3, [32], reach=('built', 'converged-checked'))
+
+# ---- the real process layer (RealCommandRunner, SubprocessSet, Subprocess, PosixJobserverClient) over the modelled operating system of harness/osmodel.h
+_OS_WRAP = ['pipe', 'close', 'read', 'write', 'open', 'fstat', 'sigemptyset', 'sigaddset', 'sigismember', 'sigprocmask', 'sigpending', 'sigaction', 'posix_spawn_file_actions_init', 'posix_spawn_file_actions_destroy',
+            'posix_spawn_file_actions_addclose', 'posix_spawn_file_actions_addopen', 'posix_spawn_file_actions_adddup2', 'posix_spawnattr_init', 'posix_spawnattr_destroy', 'posix_spawnattr_setsigmask',
+            'posix_spawnattr_setflags', 'posix_spawn', 'waitpid', 'kill', 'ppoll']
+def _real_runner(jobs, thorough_only=False):
+    out = []
+    for j in _via_main(jobs, thorough_only):
+        q = dict(j); q['name'] = j['name'][:-5] + '_procs'; q['defines'] = list(j['defines']) + ['REAL_RUNNER']; q['units'] = list(PIPELINE) + ['real_command_runner', 'subprocess-posix', 'jobserver-posix']
+        q['stubs_defines'] = ['VERIF_REAL_RUNNER']; q['wrap'] = _OS_WRAP
+        for t in ('quick', 'thorough'): q[t] = dict(q[t], bounds=q[t]['bounds'].replace('entered through real_main(argv)', 'entered through real_main(argv) with the real RealCommandRunner / SubprocessSet / jobserver client over a modelled OS: symbolic output chunking, exit codes and signals, SIGCHLD-before-EOF, pending vs delivered interrupt signal'))
+        out.append(q)
+    return out
+CHECKS['C20']['jobs'] += _real_runner(_mode_jobs('MODE_STATUS', [9], extra=['WITH_FAILURES'], suffix='_fail', reach=('failure', 'success', 'output-shown'), bounds='one invocation from the empty tree, -j in {1,2,3}, each command prints or not, any subset fails, -k in {1,2}, every completion order'))
+CHECKS['C05']['jobs'] += _real_runner(_mode_jobs('MODE_FAIL', [13], reach=('failed', 'retried', 'all-succeeded'), bounds='one invocation from the empty tree; any subset of commands fails with exit code 1..3 or dies by SIGSEGV/SIGKILL, touched or not; -k in {1,2,0}; -j in {1,2,3}'))
+CHECKS['C06']['jobs'] += _real_runner(_mode_jobs('MODE_SCHED', [9], reach=('built',), bounds='one invocation from the empty tree, -j in {1,2,3}, every completion order'))
+CHECKS['C06']['jobs'] += _real_runner(_mode_jobs('MODE_SCHED', [13], extra=['WITH_JOBSERVER', 'WITH_FAILURES'], suffix='_tokens_fail', reach=('tokens-success', 'tokens-failure'), bounds='jobserver FIFO (MAKEFLAGS --jobserver-auth=fifo:) holding 0..2 tokens, any command may fail, -k in {1,2}'))
+CHECKS['C07']['jobs'] += _real_runner(_mode_jobs('MODE_CRASH', [5], extra=['INTERRUPT'], suffix='_interrupt', reach=('interrupted', 'recovered'), bounds='SIGINT / SIGTERM / SIGHUP at any wait, delivered during the poll or left pending; running commands touched their outputs or not; recovery build'))
 
 # ---- tiering: which jobs run in the quick tier (measured on 16 cores; the rest is thorough only) -------------------------------------------
 def _single_edit_variant(prop, job_name):
@@ -330,6 +355,8 @@ def _thorough_only(prop, names):
     for j in CHECKS[prop]['jobs']:
         if j['name'] in names: j['thorough_only'] = True
 _single_edit_variant('C01', 'dyndep'); _thorough_only('C01', ['pools'])
+for _j in CHECKS['C05']['jobs']:
+    if _j['name'] == 'depfile_plain_built': _j.pop('thorough_only', None)
 _thorough_only('C02', ['diamond_order_only', 'dyndep', 'pools'])
 _thorough_only('C03', ['pools'])
 _single_edit_variant('C04', 'dyndep')
